@@ -65,7 +65,7 @@ func runC10AppClient(ep *core.Episode) {
 		}
 		S.Yield(site)
 	}
-	ep.OnCleanup(func() { verifhook.OnYield = nil })
+	ep.OnDrained(func() { verifhook.OnYield = nil })
 
 	// ---- scripted server: answers every complete request, after a hold the scheduler decides ----
 	type peerState struct {
